@@ -1,6 +1,8 @@
 package binary
 
 import (
+	"io"
+
 	"github.com/cloudwego/dynamicgo/proto"
 	"github.com/cloudwego/dynamicgo/proto/protowire"
 )
@@ -19,6 +21,11 @@ func (p *BinaryProtocol) SkipBytesType() (int, error) {
 	v, n := protowire.ConsumeVarint((p.Buf)[p.Read:])
 	if n < 0 {
 		return n, errDecodeField
+	}
+	// v comes from the wire: compare it with what is left before it is converted to int and added
+	// (int(v)+n wraps for v >= 2^63, and next() panics on a size <= 0)
+	if v > uint64(len(p.Buf)-p.Read-n) {
+		return n, io.EOF
 	}
 	all := int(v) + n
 	_, err := p.next(all)
